@@ -30,6 +30,18 @@ Definition lv_big (v : lvalue) : bool :=
   | LMap l => existsb (fun kv => atom_big kv.1 || atom_big kv.2) l
   end.
 
+(** integers that a 64-bit float rounds to 2^63: decoded through float64 they are outside the 64-bit range *)
+Definition edge (z : Z) : bool := (9223372036854775296 <=? z)%Z.
+Definition atom_edge (a : atom) : bool := match a with AInt z => edge z | _ => false end.
+Definition lv_edge (v : lvalue) : bool :=
+  match v with
+  | LAtom a => atom_edge a
+  | LOpt (Some a) => atom_edge a
+  | LOpt None => false
+  | LSet l => existsb atom_edge l
+  | LMap l => existsb (fun kv => atom_edge kv.1 || atom_edge kv.2) l
+  end.
+
 Fixpoint nm_same (a b : nmodel) : nat :=
   match a, b with
   | [], [] => 0
@@ -50,7 +62,8 @@ Definition check (c : case) : nat :=
       end
   | CBack ct g class v =>
       match ovs_to_native ct g with
-      | Ok v' => if Nat.eqb class 0 then (if lv_same v' v then 0 else if lv_big v' then 113 else 4) else 3
+      | Ok v' => if Nat.eqb class 0 then (if lv_same v' v then 0 else if lv_big v' then 113 else 4)
+                 else if lv_edge v' then 113 else 3
       | Err _ => if Nat.eqb class 1 then 0 else 3
       | Panic => 3
       end
@@ -68,7 +81,7 @@ Definition check (c : case) : nat :=
       end
   | CGet cols r m0 class m' =>
       match get_row_data (mkTable 0%N cols [] true) r m0 with
-      | Ok m1 => if Nat.eqb class 0 then nm_same m1 m' else 8
+      | Ok m1 => if Nat.eqb class 0 then nm_same m1 m' else if existsb (fun cv => lv_edge cv.2) m1 then 113 else 8
       | Err _ => if Nat.eqb class 1 then 0 else 8
       | Panic => 8
       end
